@@ -37,7 +37,7 @@ CHECKS = {
          "Seeded exploration; replicas must agree on verdict class, number of failed checks, a query panel and the set of derived facts (one query per predicate); a repeated Authorize must equal the first. Sampling.",
          "trusted: none beyond errors.Is classification; derived facts are observed through Query, not through PrintWorld text", "DESIGN.md §3 C12"),
  "C13": ("exploration", "deterministic simulation with fault injection: request histories on one long-lived authorizer (any outcome per round, including tape-forced timeouts) with Reset between rounds; fresh-twin agreement per round (model-free)",
-         "Seeded exploration of 2-5 rounds per authorizer; each round's verdict, failed checks and query results must equal those of a freshly created authorizer given only that round's content; rounds are biased so that the previous round's facts would satisfy this round's checks. Sampling.",
+         "Seeded exploration of 2-5 rounds per authorizer; each round's verdict, failed checks and query results (a panel with one query per predicate) must equal those of a freshly created authorizer given only that round's content; rounds are biased so that the previous round's facts would satisfy this round's checks. Plus a fault-enumeration part: directed histories (productive round, Reset, rounds asking about what the first derived) with the deadline placed at EVERY scheduler step, goroutines left behind by the timed-out round NOT drained but interleaved with the following rounds. Sampling elsewhere.",
          "trusted: none beyond errors.Is classification", "DESIGN.md §3 C13"),
  "C16": ("exploration", "deterministic simulation with fault injection: derivation histories x verifier key maps, root key id rewritten in transit; ledger of ids + exact-key selection judged by the reference chain walk",
          "Seeded exploration over ids {absent, 0, 1, 2^31, 2^32-1, random}, all derivation orders (attenuate, seal, serialize, reload) and key maps with right keys under wrong ids and wrong keys under right ids. Sampling.",
